@@ -748,6 +748,6 @@ class CSSStyleDeclaration(CSS2Properties, cssutils.util.Base2):
 
     def _getValid(self):
         """Check each contained property for validity."""
-        return all(prop.valid for prop in self.getProperties())
+        return all(prop.valid for prop in self.getProperties(all=True))
 
     valid = property(_getValid, doc='``True`` if each property is valid.')
